@@ -138,8 +138,15 @@ class Effects:
         fresh = set()
         fe.alias = alias
 
-        def note_assign(name, value, env):
+        top = {id(st) for st in func.node.body}
+
+        def note_assign(name, value, env, conditional=False):
             if _is_fresh_expr(value, fresh, P, env, cn):
+                if conditional and name in params and name in alias:
+                    # a parameter re-bound on one path only (`if isinstance(
+                    # d, str): d = create(d)`) is still the caller's object
+                    # on the other
+                    return
                 fresh.add(name)
                 alias.pop(name, None)
             else:
@@ -174,6 +181,8 @@ class Effects:
                             src = b.id
                 if src is not None and src in alias:
                     alias[name] = alias[src]
+                elif conditional and name in params and name in alias:
+                    pass        # still the caller's object on the other path
                 else:
                     alias.pop(name, None)
 
@@ -223,7 +232,7 @@ class Effects:
                     elif isinstance(s, ast.Delete):
                         pass
                     elif v is not None:
-                        note_assign(t.id, v, env)
+                        note_assign(t.id, v, env, id(s) not in top)
                     else:
                         # tuple unpack from call etc.: unknown, not fresh
                         fresh.discard(t.id)
